@@ -87,6 +87,7 @@ def tasks(tier, seed):
     shards = 16 if tier == "quick" else 64
     t = [(MOD, "hyp", (n // shards, seed * 1_000_003 + i, tier)) for i in range(shards)]
     t.append((MOD, "fixed", ()))
+    t += [(MOD, "cellunions", (i, 4, tier)) for i in range(4)]
     if tier == "thorough":
         for i in range(16):
             t.append((MOD, "fuzz", (seed * 101 + i, 150000)))
@@ -99,6 +100,29 @@ FIXED = [
     ">=1||", "||", ">=1||<0.5||==0.7", "<empty>||>=2", ">=1,,<2", ">=1,", ",", "1.0", "=1.0", "~>1.0", ">=1 <2", ">=1;<2", " >=1 , <2 ",
     ">=01.02", "==1.0.dev", "!=2!0", "<0!1", "~=0!1.0", "==1-1", "==1.0-1.*", "~=1.0a", "~=1.0.post", "==2.0.post1.*",
 ]
+
+
+def cellunions(acc, shard, nshards, tier):
+    """L1: every set over three (thorough: also four) bounds written as ||-alternatives in EVERY order: the parser
+    folds the alternatives left to right, so which neighbours meet first (touching with two exclusive ends, nested,
+    point between two open ranges, ...) depends on the written order."""
+    import itertools
+
+    from .c04 import mask_text
+
+    acc.exhaustive_layers.add("L1-alternative-orders")
+    mod = sys.modules[MOD]
+    k = 0
+    for pts in [["1", "2", "3"], ["1.0", "1.0.1", "1!0"]] + ([["0.5", "1", "1.5", "2"]] if tier == "thorough" else []):
+        n = 2 * len(pts) + 1
+        for m in range(1, (1 << n) - 1):
+            parts = mask_text(m, pts).split("||")
+            if len(parts) < 2:
+                continue
+            for perm in itertools.permutations(parts):
+                k += 1
+                if k % nshards == shard:
+                    harness.process(mod, acc, "text", {"text": "||".join(perm)}, "L1-alternative-orders")
 
 
 def fixed(acc):
